@@ -231,6 +231,9 @@ func (g *grpcClient) NewConn(
 	spec Spec,
 	header http.Header,
 ) StreamingClientConn {
+	// The header map may be the caller's Request.Header(), which outlives this
+	// call: don't let a timeout written for an earlier call linger.
+	header.Del(grpcHeaderTimeout)
 	if deadline, ok := ctx.Deadline(); ok {
 		if encodedDeadline, err := grpcEncodeTimeout(time.Until(deadline)); err == nil {
 			// Tests verify that the error in encodeTimeout is unreachable, so we
